@@ -23,8 +23,7 @@ RULE = ("histories of add/remove/discard/pop/clear/sort/reverse, update/intersec
         "issubset/issuperset/isdisjoint, s[i], s[a:b:k], index, count, in, len, iter, reversed; after every "
         "operation len(s) and digests of [s[i] for i in range(len(s))] and list(s) are recorded, at snapshot "
         "operations every s[i] for -len<=i<len, index() of every item and reversed().  Streams: mixed, "
-        "deletion-heavy (compaction, right-trim), directed stale-interval, set-algebra, large (> 384 dead "
-        "intervals).  non-trivial = a deletion away from the tail is later followed by a positional read, or a "
+        "deletion-heavy (compaction, right-trim), directed stale-interval, directed empty-and-refill, set-algebra, spec-validation.  non-trivial = a deletion away from the tail is later followed by a positional read, or a "
         "set operation has >= 2 operands; distinct = distinct canonical history hash")
 ASSUMPTIONS = ["items are hashable with lawful __eq__/__hash__ (tokens mapped to pairwise unequal Python objects)",
                "index arguments are valid for a list of the same length, slice steps positive (the property's quantifier); "
@@ -145,6 +144,8 @@ class Ref:
         elif k == "sdupdate":
             o = op[1][1]
             l[:] = [x for x in l if x not in o] + _uniq([x for x in o if x not in l])
+        elif k == "self" and op[1] in ("dupdate", "sdupdate"):
+            del l[:]
 
 
 def _operand(rng, ref, univ, kinds=OPD_KINDS, maxlen=7):
@@ -219,7 +220,16 @@ def _delete_op(rng, ref, univ):
     return ["pop", _idx(rng, n)]
 
 
+SELF_KINDS = ["update", "iupdate", "dupdate", "sdupdate", "union", "inter", "diff", "symdiff",
+              "issubset", "issuperset", "isdisjoint"]
+
+
 def _setop(rng, ref, univ, sortable):
+    if rng.random() < 0.07:
+        # the operand is the set itself
+        k = rng.choice(SELF_KINDS)
+        form = rng.choice(["method", "operator"]) if k not in ("issubset", "issuperset", "isdisjoint") else "method"
+        return ["self", k, form]
     r = rng.random()
     if r < 0.14:
         kinds = OPD_KINDS + ["gen", "iter"]
@@ -405,6 +415,55 @@ def _gen_stale(rng, tier):
     return {"keymode": mode, "digests": True, "ops": ops, "stream": "stale"}
 
 
+def _gen_clear(rng, tier):
+    """directed: leave a few separate tombstones (fewer than 1/8 of the slots, so nothing compacts), empty the
+    set in one of four ways (clear(), -= an equal operand [the `self in others` shortcut], &= an empty operand,
+    popping everything), refill it past the old tombstone positions and read positions: bookkeeping that
+    survives the emptying (stale dead intervals, stale map entries) shifts every later s[i] / index()"""
+    mode = rng.choice(["int", "str", "tuple"])
+    n0 = rng.choice([17, 24, 33, 48, 64])
+    ref = Ref()
+    ops = [["update", [[rng.choice(["list", "tuple", "gen"]), list(range(n0))]], "ctor"]]
+    ref.apply(ops[0])
+    ntomb = rng.randint(1, max(1, n0 // 8 - 1))
+    for p_ in sorted(rng.sample(range(1, n0 - 2), ntomb), reverse=rng.random() < 0.5):
+        op = rng.choice([["remove", p_], ["discard", p_]])
+        ops.append(op)
+        ref.apply(op)
+    how = rng.choice(["clear", "clear", "dupdate_eq", "iupdate_empty", "popall", "self_dupdate", "self_sdupdate"])
+    if how == "clear":
+        new = [["clear"]]
+    elif how == "dupdate_eq":
+        new = [["dupdate", [[rng.choice(["set", "list", "iset", "frozenset"]), list(ref.l)]], rng.choice(["method", "operator"])]]
+    elif how == "iupdate_empty":
+        new = [["iupdate", [[rng.choice(["set", "list", "tuple"]), []]], rng.choice(["method", "operator"])]]
+    elif how == "self_dupdate":
+        new = [["self", "dupdate", rng.choice(["method", "operator"])]]
+    elif how == "self_sdupdate":
+        new = [["self", "sdupdate", rng.choice(["method", "operator"])]]
+    else:
+        new = [rng.choice([["pop", None], ["pop", 0], ["pop", -1]]) for _ in range(len(ref.l))]
+    for op in new:
+        ops.append(op)
+        ref.apply(op)
+    k = rng.randint(max(4, n0 // 2), n0 + 6)
+    base = rng.choice([0, 0, n0 + 10])
+    op = ["update", [[rng.choice(["list", "tuple", "gen", "iset"]), [base + t for t in range(k)]]], "method"]
+    ops.append(op)
+    ref.apply(op)
+    n = len(ref.l)
+    ops.append(["get", n - 1])
+    ops.append(["index", ref.l[rng.randrange(n)]])
+    ops.append(["get", -1 - rng.randrange(n)])
+    if rng.random() < 0.5:
+        op = ["pop", rng.randrange(n)]
+        ops.append(op)
+        ref.apply(op)
+        ops.append(["slice", rng.randrange(n), None, rng.choice([None, 2])])
+    ops.append(["snap"])
+    return {"keymode": mode, "digests": True, "ops": ops, "stream": "clear"}
+
+
 def _gen_setalg(rng, tier):
     return _gen_mixed(rng, tier, (1, 2, 2, 9, 1))
 
@@ -450,8 +509,10 @@ def generate(rng, tier, n):
             yield _gen_mixed(rng, tier, (3, 5, 5, 4, 1))
         elif r < 0.62:
             yield _gen_deletion(rng, tier)
-        elif r < 0.74:
+        elif r < 0.70:
             yield _gen_stale(rng, tier)
+        elif r < 0.77:
+            yield _gen_clear(rng, tier)
         else:
             yield _gen_setalg(rng, tier)
 
@@ -728,6 +789,52 @@ def run_impl(case):
                 ret = ["bool", s.issuperset(operands[0])]
             elif k == "isdisjoint":
                 ret = ["bool", s.isdisjoint(operands[0])]
+            elif k == "self":
+                sk, op_form = op[1], form == "operator"
+                if sk == "update":
+                    if op_form:
+                        s0 = s
+                        s |= s
+                        assert s is s0
+                    else:
+                        s.update(s)
+                elif sk == "iupdate":
+                    if op_form:
+                        s0 = s
+                        s &= s
+                        assert s is s0
+                    else:
+                        s.intersection_update(s)
+                elif sk == "dupdate":
+                    if op_form:
+                        s0 = s
+                        s -= s
+                        assert s is s0
+                    else:
+                        s.difference_update(s)
+                elif sk == "sdupdate":
+                    if op_form:
+                        s0 = s
+                        s ^= s
+                        assert s is s0
+                    else:
+                        s.symmetric_difference_update(s)
+                elif sk == "union":
+                    ret = newset(s | s if op_form else s.union(s))
+                elif sk == "inter":
+                    ret = newset(s & s if op_form else s.intersection(s))
+                elif sk == "diff":
+                    ret = newset(s - s if op_form else s.difference(s))
+                elif sk == "symdiff":
+                    ret = newset(s ^ s if op_form else s.symmetric_difference(s))
+                elif sk == "issubset":
+                    ret = ["bool", s.issubset(s)]
+                elif sk == "issuperset":
+                    ret = ["bool", s.issuperset(s)]
+                elif sk == "isdisjoint":
+                    ret = ["bool", s.isdisjoint(s)]
+                else:
+                    raise AssertionError(op)
             elif k == "get":
                 ret = ["item", T.tok(s[op[1]])]
             elif k == "slice":
@@ -830,6 +937,11 @@ def _op(op, orders):
     if k in single:
         assert len(orders) == 1
         return "%s %s" % (single[k], _opd(op[1][0], orders[0]))
+    if k == "self":
+        return "SelfOp %s" % {"update": "SUpdate", "iupdate": "SIntersectionUpdate", "dupdate": "SDifferenceUpdate",
+                              "sdupdate": "SSymDiffUpdate", "union": "SUnion", "inter": "SIntersection",
+                              "diff": "SDifference", "symdiff": "SSymDiff", "issubset": "SIsSubset",
+                              "issuperset": "SIsSuperset", "isdisjoint": "SIsDisjoint"}[op[1]]
     if k == "get":
         return "GetItem %s" % cZ(op[1])
     if k == "slice":
@@ -974,7 +1086,8 @@ def distribution(d, case, obs):
     kinds = d.setdefault("operand_kinds", {})
     arity = d.setdefault("operand_arity", {})
     for op in case["ops"]:
-        name = op[0] + (":" + op[2] if len(op) > 2 and isinstance(op[2], str) and op[2] != "method" else "")
+        name = op[0] + (":" + op[1] if op[0] == "self" else "") + \
+            (":" + op[2] if len(op) > 2 and isinstance(op[2], str) and op[2] != "method" else "")
         ops[name] = ops.get(name, 0) + 1
         if op[0] in ("update", "iupdate", "dupdate", "union", "inter", "diff"):
             arity[str(len(op[1]))] = arity.get(str(len(op[1])), 0) + 1
